@@ -228,3 +228,16 @@ def run(ctx):
     for r in (res[1], res[3]):
         if r.cls != "error" or r.stdout != b"":
             ctx.violation("cli-rejects", dict(phrase=good), "error, no output", str(r))
+    # phrases that went through the generator's own data path (a worker thread of a search hands its phrase to the main thread;
+    # `0x` matches at once): printed phrase -> parse -> print gives the same phrase, for every length and thread count
+    gruns = [dict(args=["new", "-n", str(n), "--vanity-prefix", "0x", "-j", str(j)], timeout=60) for n in LENS for j in (0, 1, 2, 5)] + \
+            [dict(args=["new", "-n", str(n)]) for n in LENS]
+    gres = ctx.cli(gruns, timeout=60)
+    gph = [r.stdout.decode().strip() if r.cls == "ok" else "" for r in gres]
+    gback = ctx.harness([("mnemonic.parse", p) for p in gph])
+    for rn, r, p, b in zip(gruns, gres, gph, gback):
+        ctx.count("generated-phrase-roundtrip")
+        ctx.distinct(("gen", tuple(rn["args"])))
+        if r.cls != "ok" or b.tag != "ok" or b.fields[0].decode() != p or len(p.split(" ")) != int(rn["args"][2]):
+            ctx.violation("generated-phrase-roundtrip", dict(op="hdwallet " + " ".join(rn["args"]), phrase=p), "a valid phrase of the requested length that parses back to itself",
+                          dict(cli=str(r)[:200], parse=str(b)[:200]))
